@@ -337,10 +337,13 @@ def execute(scenario, seed, overrides=None):
         if sent1 and v_registered and (not got or got[0].t > tc + 1.3):
             out.add("C15.canary-unanswered", "legacy-unicast canary query for the victim's type was not answered within "
                     f"1.3 s (answers: {[round(x.t - tc, 3) for x in got]})")
-        # canary 2: ordinary multicast query answered by multicast within 1.3 s
+        # canary 2: ordinary multicast query answered by multicast within 1.3 s. The record counts as delivered in
+        # whatever section of a multicast response it travels: when it rides as an additional of another answer the
+        # library drops its queued copy (repair D51), and the querier has it all the same (C12's liveness clause
+        # reads the same way)
         got2 = [tx for tx in w.net.trace if tx.host == "V" and tx.multicast and tx.msg is not None and tx.msg.is_response
                 and tx.t >= tc and any(r.type == wire.T_TXT and r.name.lower() == "victim._http._tcp.local." and r.ttl > 0
-                                       for r in tx.msg.answers)]
+                                       for r in tx.msg.answers + tx.msg.additionals)]
         if sent2 and v_registered and (not got2 or got2[0].t > tc + 0.01 + 1.3):
             out.add("C15.canary-mcast-unanswered", "multicast canary TXT query was not answered within 1.3 s "
                     f"({[round(x.t - tc, 3) for x in got2]})")
@@ -348,7 +351,7 @@ def execute(scenario, seed, overrides=None):
         sent4 = any(tx.host == "X" and tx.t >= tc for tx in w.net.trace)
         got4 = [tx for tx in w.net.trace if tx.host == "V" and tx.multicast and tx.msg is not None and tx.msg.is_response
                 and tx.t >= tc and any(r.type == wire.T_SRV and r.name.lower() == "victim._http._tcp.local." and r.ttl > 0
-                                       for r in tx.msg.answers)]
+                                       for r in tx.msg.answers + tx.msg.additionals)]
         if sent4 and v_registered and (not got4 or got4[0].t > tc + 0.015 + 1.3):
             out.add("C15.canary-from-attacker-address-unanswered", "a well-formed SRV query sent after the stream from the "
                     f"address the hostile datagrams came from was not answered within 1.3 s ({[round(x.t - tc, 3) for x in got4]})")
